@@ -31,8 +31,8 @@ func collectStrings(t interface{}, out *[]string) {
 			collectStrings(e, out)
 		}
 	case map[string]interface{}:
-		for _, e := range x {
-			collectStrings(e, out)
+		for _, k := range sortedKeys(x) {
+			collectStrings(x[k], out)
 		}
 	}
 }
@@ -67,8 +67,8 @@ func collectFloats(t interface{}, out *[]float64) {
 			collectFloats(e, out)
 		}
 	case map[string]interface{}:
-		for _, e := range x {
-			collectFloats(e, out)
+		for _, k := range sortedKeys(x) {
+			collectFloats(x[k], out)
 		}
 	}
 }
@@ -332,7 +332,7 @@ func walkFaults(r *Rng, t *tyNode, data interface{}, set func(interface{}), path
 		if !ok {
 			return
 		}
-		for k := range m {
+		for _, k := range sortedKeys(m) {
 			k := k
 			walkFaults(r, t.Elem, m[k], func(v interface{}) { m[k] = v }, joinPath(path, k), out)
 		}
